@@ -94,8 +94,18 @@ substitute_decl(CPPDeclaration::SubstDecl &subst,
   // Protect against recursive entry into this function block.  I know it's
   // ugly--have you got any better suggestions?
   if (_subst_decl_recursive_protect) {
-    // We're already executing this block.
-    return this;
+    // We're already executing this block: the name refers, directly or
+    // indirectly, to an instantiation of the template it is a member of.  Do
+    // not try to define it now, but do replace the template parameters in
+    // it, so that it can be resolved later.
+    CPPIdentifier *ident =
+      _ident->substitute_decl(subst, current_scope, global_scope);
+    if (ident == _ident) {
+      return this;
+    }
+    CPPTBDType *later = new CPPTBDType(*this);
+    later->_ident = ident;
+    return CPPType::new_type(later);
   }
   _subst_decl_recursive_protect = true;
 
